@@ -42,6 +42,12 @@ LATE_FAILURES = [
     ("declare_static", "$job", ["d/s/"], ["a", ".stepup/x"], []),
     ("declare_static", "$job", ["d/s/"], ["b"], []),
     ("declare_static", "$job", ["d/"], [], [("*", ["a", "b"])]),
+    # an amendment whose input lies under a static tree (UNCONFIRMED until it is hashed, which
+    # the handler waits for) and whose outputs are refused afterwards
+    ("amend_step", "$job", ["d/e"], [], [".stepup/x"], []),
+    ("amend_step", "$job", ["d/e"], [], ["y2"], ["y2"]),
+    ("amend_step", "$job", ["d/e"], [], ["d/zz"], []),
+    ("amend_step", "$job", ["d/e"], ["VERIF_X"], ["a"], []),
 ]
 
 
